@@ -34,6 +34,7 @@ ASSUMPTIONS = [
     'alias rewrites touch only non-internable objects; == deliberately ignores sharing of internables',
     'two breaking rewrites in a row give no expectation for x == z (they may cancel)',
 ]
+RULE += (' ' + 'Round 7: named tuples of plain literals (retyped to plain tuples by nt_to_tuple).')
 RULE += (' ' + 'Round 6: a parameter whose default is a sentinel object compared by identity: unset, explicit, and a copy (deepcopy / pickle / copy / copy_with / deepcopy_with / identity traversal) of the unset one are pairwise equal.')
 BUDGET = {'quick': 16 * 500, 'thorough': 16 * 12000}
 FLOORS = {'alias_only_pair': 0.03, 'mixed_key_dict': 0.012, 'explicit_default': 0.05, 'r1_intern_redirect': 0.013}
@@ -118,9 +119,20 @@ def strategy_(draw, tier):
     for nm in names[-2:]:
       root['kw'][nm] = i + 1
     recipe['root'] = i + 2
+  force_r1 = None
+  if draw(st.sampled_from(range(6))) == 0:
+    # a named tuple of plain literals under the root (its only difference from a plain tuple is its type)
+    i = len(recipe['nodes']) - 1
+    root = recipe['nodes'].pop()
+    recipe['nodes'] += [{'k': 'nt', 'type': draw(st.sampled_from(['Pair', 'PairSub'])),
+                         'items': [{'leaf': draw(leaves.leaf('plain'))}, {'leaf': draw(leaves.leaf('plain'))}]}, root]
+    root['kw'][_free_param(root)] = i
+    recipe['root'] = i + 1
+    if draw(st.booleans()):
+      force_r1 = 'nt_to_tuple'
   weighted = PRESERVING + BREAKING + ['alias_redirect', 'alias_redirect', 'alias_redirect', 'merge', 'alias_retarget', 'alias_retarget', 'nt_to_tuple', 'nt_to_tuple',
                                       'dict_reorder', 'explicit_default', 'intern_redirect']
-  r1 = [draw(st.sampled_from(weighted)), draw(st.integers(0, 50))]
+  r1 = [force_r1 or draw(st.sampled_from(weighted)), draw(st.integers(0, 50))]
   r2 = [draw(st.sampled_from(weighted + PRESERVING)), draw(st.integers(0, 50))]
   return {'recipe': recipe, 'r1': r1, 'r2': r2}
 
